@@ -76,6 +76,18 @@ theorem c01_foreign_rejected (env : Env P O T V) (i : Internals P O V) :
 
 /-! ### Numeric checks mean the mathematical relation (bridge to C16) -/
 
+open FloatMul in
+/-- `Float.Int` (`val == math.Trunc(val)`) holds exactly when the value has no fractional part. -/
+theorem isIntF_eq_spec (x : F) : isIntF x = specIsIntF x := by
+  cases x with
+  | fin a k =>
+    simp only [isIntF, specIsIntF, F.truncInt]
+    by_cases h : (2:Int)^k ∣ a
+    · simp [h, Int.tdiv_mul_cancel h]
+    · have : ¬ (a.tdiv (2^k) * 2^k = a) := fun e => h ⟨a.tdiv (2^k), by rw [Int.mul_comm]; exact e.symm⟩
+      simp [h, this]
+  | _ => rfl
+
 open NumChecks in
 /-- Every numeric check of the model holds exactly when its documented (mathematical) meaning
     holds, for well-formed operands: comparisons by `c16_cmp`, integer multiples by
@@ -85,7 +97,9 @@ theorem c01_num_holds_spec (p : NPred) (v : Num) (hv : C16.Num.wf v)
           | .cmp _ b => C16.Num.wf b
           | .mult d => C16.Num.wf d ∧ C16.isInt d = true ∧ C16.isInt v = true
           | .finite => True
-          | .safe => True) :
+          | .safe => True
+          | .multF d => ∀ x, v = .f x → FloatMul.implMultF x d = FloatMul.specMultF x d  -- TODO-ROUND
+          | .isInt => True) :
     holds p v = specHolds p v := by
   cases p with
   | cmp op b => exact C16.c16_cmp op v b hv hp
@@ -101,6 +115,14 @@ theorem c01_num_holds_spec (p : NPred) (v : Num) (hv : C16.Num.wf v)
     have whi : C16.Num.wf (safeBound v (2 ^ 53 - 1)) := by
       cases v <;> simp [safeBound, C16.Num.wf, IntTy.inRange, IntTy.lo, IntTy.hi, IntTy.signed, IntTy.bits]
     simp only [holds, specHolds, C16.c16_cmp _ v _ hv wlo, C16.c16_cmp _ v _ hv whi]
+  | multF d =>
+    cases v with
+    | f x => simp only [holds, specHolds]; exact hp x rfl
+    | _ => rfl
+  | isInt =>
+    cases v with
+    | f x => simp only [holds, specHolds]; exact isIntF_eq_spec x
+    | _ => rfl
 
 /-! ### Enum / Literal: membership with Go's interface equality (type and value) -/
 
